@@ -53,7 +53,7 @@ func renderTree(v interface{}) string {
 	return fmt.Sprintf("%v", v)
 }
 
-const c18NumOps = 30
+const c18NumOps = 35
 
 // c18Op runs operation fn on the shared read-only input d with private state.
 func c18Op(fn int, d []byte, pv *c18Priv) c18Res {
@@ -173,9 +173,25 @@ func c18Op(fn int, d []byte, pv *c18Priv) c18Res {
 	case 28:
 		v, p, err := pv.vr.ReadObject(d)
 		return c18Res{p: p, err: err != nil, v: renderTree(map[string]interface{}(v))}
-	default:
+	case 29:
 		v, p, err := rjson.ReadArray(d)
 		return c18Res{p: p, err: err != nil, v: renderTree([]interface{}(v))}
+	case 30:
+		return c18Res{v: fmt.Sprint(rjson.Valid(d, nil))}
+	case 31:
+		p, err := rjson.SkipValue(d, nil)
+		return c18Res{p: p, err: err != nil}
+	case 32:
+		p, err := rjson.SkipValueFast(d, nil)
+		return c18Res{p: p, err: err != nil}
+	case 33:
+		n := 0
+		p, err := rjson.HandleArrayValues(d, rjson.ArrayValueHandlerFunc(func(x []byte) (int, error) { n++; return rjson.SkipValue(x, nil) }), nil)
+		return c18Res{p: p, err: err != nil, v: fmt.Sprint(n)}
+	default:
+		n := 0
+		p, err := rjson.HandleObjectValues(d, rjson.ObjectValueHandlerFunc(func(k, x []byte) (int, error) { n += len(k) + 1; return 0, nil }), nil)
+		return c18Res{p: p, err: err != nil, v: fmt.Sprint(n)}
 	}
 }
 
@@ -198,22 +214,18 @@ func c18Round(c *core.Case) (overlap bool, err error) {
 	for i := 3; i+1 < len(c.Ints); i += 2 {
 		ops = append(ops, op{int(c.Ints[i]), int(c.Ints[i+1]) % len(docs)})
 	}
-	want := make([]c18Res, len(ops))
-	{
-		var pv c18Priv
-		for i, o := range ops {
-			want[i] = c18Op(o.fn, docs[o.doc], &pv)
-		}
-	}
+	// The concurrent phase runs FIRST and the sequential reference run afterwards, so that in
+	// a fresh process lazily initialised package state is first touched concurrently.
 	old := runtime.GOMAXPROCS(procs)
 	defer runtime.GOMAXPROCS(old)
 	inflight := make([]atomic.Int32, len(ops))
 	var overlapped atomic.Bool
-	var mismatch atomic.Pointer[string]
+	results := make([][]c18Res, ng)
 	var wg sync.WaitGroup
 	start := make(chan struct{})
 	for g := 0; g < ng; g++ {
 		wg.Add(1)
+		results[g] = make([]c18Res, len(ops))
 		go func(g int) {
 			defer wg.Done()
 			var pv c18Priv
@@ -223,13 +235,8 @@ func c18Round(c *core.Case) (overlap bool, err error) {
 				if inflight[i].Add(1) >= 2 {
 					overlapped.Store(true)
 				}
-				got := c18Op(ops[i].fn, docs[ops[i].doc], &pv)
+				results[g][i] = c18Op(ops[i].fn, docs[ops[i].doc], &pv)
 				inflight[i].Add(-1)
-				if got != want[i] {
-					s := fmt.Sprintf("goroutine %d: operation %d on shared input %q returned (p=%d err=%v %.120q); run alone it returns (p=%d err=%v %.120q)",
-						g, ops[i].fn%c18NumOps, docs[ops[i].doc], got.p, got.err, got.v, want[i].p, want[i].err, want[i].v)
-					mismatch.CompareAndSwap(nil, &s)
-				}
 				if (k+g)%7 == 0 {
 					runtime.Gosched()
 				}
@@ -238,8 +245,21 @@ func c18Round(c *core.Case) (overlap bool, err error) {
 	}
 	close(start)
 	wg.Wait()
-	if m := mismatch.Load(); m != nil {
-		return overlapped.Load(), fmt.Errorf("%s", *m)
+	want := make([]c18Res, len(ops))
+	{
+		var pv c18Priv
+		for i, o := range ops {
+			want[i] = c18Op(o.fn, docs[o.doc], &pv)
+		}
+	}
+	for g := 0; g < ng; g++ {
+		for k := 0; k < len(ops); k++ {
+			i := (k*stride + g*13) % len(ops) // only the operations this goroutine ran
+			if got := results[g][i]; got != want[i] {
+				return overlapped.Load(), fmt.Errorf("goroutine %d: operation %d on shared input %.200q returned (p=%d err=%v %.120q); run alone it returns (p=%d err=%v %.120q)",
+					g, ops[i].fn%c18NumOps, docs[ops[i].doc], got.p, got.err, got.v, want[i].p, want[i].err, want[i].v)
+			}
+		}
 	}
 	for i := range docs {
 		if string(docs[i]) != string(snaps[i]) {
